@@ -127,6 +127,46 @@ def generate(rng: random.Random, tier: str):
         yield from cases_for_schema(rng, sc, info, {"spec": spec}, docs, 12, 30, 6, "generated")
 
 
+    # wrapper chains: schemas in which a wrapper's first child is (not) followed by further required siblings, so
+    # that "each wrapper may hold the next wrapper as its ONLY child" decides which chain, if any, fits
+    for k in range(10 if quick else 120):
+        sc, spec = wrapper_schema(rng)
+        if sc is None:
+            continue
+        info = SchemaInfo(sc)
+        for m in list(info.states):
+            for ty in sc.nodes.values():
+                yield wrap_case(info, {"spec": spec}, m, ty, "wrappers")
+
+
+def wrapper_schema(rng):
+    first = ["w2 tail", "w2 tail?", "w2", "w2+", "w2 w2", "w2 tail*", "(w2 | tail)+", "w2 tail+", "tail? w2"]
+    inner = ["item+", "item", "item tail", "item*", "(item | tail)+", "w3", "w3 tail", "w3+"]
+    third = ["item+", "item tail", "item"]
+    tops = ["blk+", "(w1 | list)+", "w1+", "list+", "w1 list", "(list | w1)+", "tail w1", "w1*"]
+    for _ in range(20):
+        nodes = {
+            "doc": {"content": rng.choice(tops)},
+            "w1": {"content": rng.choice(first), "group": "blk"},
+            "w2": {"content": rng.choice(inner)},
+            "w3": {"content": rng.choice(third)},
+            "list": {"content": rng.choice(["row+", "row", "row tail"]), "group": "blk"},
+            "row": {"content": rng.choice(["item+", "item", "item tail?"])},
+            "item": {"content": "text*"},
+            "tail": {"group": "blk"} if rng.random() < 0.5 else {},
+            "text": {},
+        }
+        spec = {"nodes": nodes, "marks": {}}
+        try:
+            sc = Schema(spec)
+        except Exception:  # noqa: BLE001
+            continue
+        if any(v >= 10 ** 6 for v in gen.DocGen(sc, rng)._mind.values()):
+            continue
+        return sc, spec
+    return None, None
+
+
 def rebuild(desc):
     raise NotImplementedError
 
